@@ -265,6 +265,8 @@ func cmdCheck(args []string) int {
 	total := 0
 	var reports []oblReport
 	var knownHit []string
+	var knownObls []string
+	knownSeen := map[string]bool{}
 	seenNames := map[string]bool{}
 	solverWall := 0.0
 	for i, o := range obls {
@@ -304,14 +306,23 @@ func cmdCheck(args []string) int {
 		}
 		// failed: known finding?
 		if kf := matchKnown(known, prop, o); kf != nil {
-			carved, detail := e.checkCarveOut(o, kf, timeoutS, seed)
+			carved, _ := e.checkCarveOut(o, kf, timeoutS, seed)
 			if carved {
-				knownHit = append(knownHit, kf.Raw)
-				fmt.Printf("KNOWN-FINDING: property=%s %s [obligation %s]\n", prop, kf.What, stripSite(o.Name))
-				discharged++ // the clause restricted to the complement of the known class is discharged
+				total-- // not part of the claimed (proved) obligation set; reported separately
+				knownObls = append(knownObls, o.Name)
+				if !knownSeen[kf.Raw] {
+					knownSeen[kf.Raw] = true
+					knownHit = append(knownHit, kf.Raw)
+					// the recorded input must still fail on the real code
+					still, _ := tryReplay(e, prop, o, r)
+					if still {
+						fmt.Printf("KNOWN-FINDING: property=%s %s\n", prop, kf.What)
+					} else {
+						fmt.Printf("KNOWN-FINDING: property=%s %s (note: the recorded input no longer reproduces on the real code although the obligation still fails)\n", prop, kf.What)
+					}
+				}
 				continue
 			}
-			_ = detail
 		}
 		reproduced, replayOut := tryReplay(e, prop, o, r)
 		body, _ := json.MarshalIndent(map[string]interface{}{
@@ -370,6 +381,7 @@ func cmdCheck(args []string) int {
 		"load_s":                   round3(loadS),
 		"vcgen_s":                  round3(genS),
 		"known_findings":           knownHit,
+		"known_finding_obligations": knownObls,
 		"not_decided":              meta.NotDecided,
 		"bounded_checks":           meta.Bounded,
 		"abstraction_notes":        notes,
